@@ -255,6 +255,11 @@ func (c *connection) onProcess(onConnect OnConnect, onRequest OnRequest) (proces
 		if c.status(closing) != 0 && c.lock(processing) {
 			// poller will get the processing lock failed, here help poller do closeCallback
 			// fd must already detach by poller
+			if c.isCloseBy(user) && c.operator.poll != nil {
+				// it was a user Close/Detach that failed to get the lock: nobody has
+				// deregistered the descriptor yet (matters when it stays open: Detach).
+				c.operator.Control(PollDetach)
+			}
 			c.closeCallback(false, false)
 			panicked = false
 			return
